@@ -25,6 +25,11 @@ type c06Op struct {
 	T     string `json:"t,omitempty"`
 	Limit int    `json:"limit"` // walk: stop at the limit-th visit, 0 = never
 	Opt   string `json:"opt,omitempty"`
+	// put / add: ID names the node object this write hands to the overlay; Reuse names an earlier write whose very
+	// node object is handed over again (one list / container / leaf instance written to two layers, or twice to one).
+	// The value written is then that object's content at this moment.
+	ID    string `json:"id,omitempty"`
+	Reuse string `json:"reuse,omitempty"`
 }
 
 type c06Hist struct {
@@ -33,10 +38,10 @@ type c06Hist struct {
 
 func init() {
 	register(&Prop{ID: "C06", Run: c06Run,
-		Rule: "histories of Put (leaf / list / container values, incl. leafless containers) / Add / Populate over 4 layer names and path-safe paths of 1-3 components from a 5-key pool with 0-2 index groups (indices 0-3) per component, one write in five aimed at a position an earlier layer defines, into a later layer: Put of a nil leaf (at the leaf or a prefix), Populate with a nil value, or a sparse list write (index >= 1 into a list the later layer does not have, so its null padding covers the earlier items); generated against a scratch overlay so that at most a few steps fall outside the domain (those are skipped by the same decidable predicate at evaluation time); after every write the layer names and every layer's content (Layers()) are compared; reads (LayerNames, Lookup, LookupAny, Search with 4 predicate kinds, Walk with and without early stop, Merged with both list strategies (against the fold of the implementation's own Merge and, independently, against the reference merge of the property text folded over the per-layer AsMap values) + Serialize, Layers() snapshots re-read at the end) are interleaved. A case is non-trivial when at least two layers exist at the end and at least 3 writes were executed; distinct = distinct canonical case JSON (hash).",
+		Rule: "histories of Put (leaf / list / container values, incl. leafless containers) / Add / Populate over 4 layer names and path-safe paths of 1-3 components from a 5-key pool with 0-2 index groups (indices 0-3) per component, one write in five aimed at a position an earlier layer defines, into a later layer: Put of a nil leaf (at the leaf or a prefix), Populate with a nil value, or a sparse list write (index >= 1 into a list the later layer does not have, so its null padding covers the earlier items); generated against a scratch overlay so that at most a few steps fall outside the domain (those are skipped by the same decidable predicate at evaluation time); after every write the layer names and every layer's content (Layers()) are compared; after every write every layer's flattened leaves are also read back through the live overlay (Lookup of every path, LookupAny against the first layer that has the path, Search(all), Walk, Merged under alternating strategies against the reference fold); one write in six hands the overlay the very node object of an earlier write (then Merged under both strategies is read at once); reads (LayerNames, Lookup, LookupAny, Search with 4 predicate kinds, Walk with and without early stop, Merged with both list strategies (against the fold of the implementation's own Merge and, independently, against the reference merge of the property text folded over the per-layer AsMap values) + Serialize, Layers() snapshots re-read at the end) are interleaved. A case is non-trivial when at least two layers exist at the end and at least 3 writes were executed; distinct = distinct canonical case JSON (hash).",
 		Assumptions: []string{
 			"domain: no write descends through an existing scalar (a null padding slot of a list, i.e. the nilLeaf singleton at an index step, is not a scalar written by the history and may be descended through), nor by a key step through an existing list (ensurePath's type assertion panics there); out-of-domain steps are skipped on both sides",
-			"Put stores the node it is given: the harness passes fresh nodes; the value model cannot express aliasing",
+			"Put / Add store the node they are given. Most writes pass fresh nodes; one write in six hands over the very node object of an earlier write again (the same list / container instance in two layers): its content at that moment is the value written, and from then on a write that would modify such an object through one of its positions (a path descending through it) is outside the domain and skipped on both sides — the value model cannot express aliasing",
 			"scalars are NaN-free and -0-free; keys are path-safe",
 			"Serialize clause: byte equality of OverlayDocument.Serialize with Merged().Serialize under yaml.v3 / encoding/json (external encoders, deterministic for a given value)",
 		}})
@@ -198,16 +203,127 @@ type c06World struct {
 	ov     dom.OverlayDocument
 	shadow map[string]dom.ContainerBuilder // per layer: a standalone document that received only that layer's writes
 	names  []string                        // expected first-write order
+	made   map[string]dom.Node             // node objects handed to the overlay, by write ID
+	shared map[uintptr]bool                // containers / lists that were handed to the overlay more than once
 }
 
 func newC06World() *c06World {
-	return &c06World{ov: dom.NewOverlayDocument(), shadow: map[string]dom.ContainerBuilder{}}
+	return &c06World{ov: dom.NewOverlayDocument(), shadow: map[string]dom.ContainerBuilder{}, made: map[string]dom.Node{}, shared: map[uintptr]bool{}}
+}
+
+// reused returns the node object an earlier write handed over, when this write asks for it again and it is of a
+// usable kind (Add takes a container).
+func (w *c06World) reused(op c06Op) dom.Node {
+	if op.Reuse == "" {
+		return nil
+	}
+	n := w.made[op.Reuse]
+	if n == nil || (op.Op == "add" && !n.IsContainer()) || op.Op == "populate" {
+		return nil
+	}
+	return n
+}
+
+// resolve replaces the value of a write that hands over an earlier write's node object by that object's content now.
+func (w *c06World) resolve(op c06Op) c06Op {
+	if n := w.reused(op); n != nil {
+		op.V = nodeWire(n)
+	}
+	return op
+}
+
+// liveNode: the node a layer holds at a step prefix (nil: nothing there), reached through the public read API.
+func (w *c06World) liveNode(l string, steps []c06Step) dom.Node {
+	if len(steps) == 0 || steps[0].IsIdx {
+		return nil
+	}
+	n := w.ov.Lookup(l, steps[0].Key)
+	for _, st := range steps[1:] {
+		if n == nil {
+			return nil
+		}
+		if st.IsIdx {
+			lst, ok := n.(dom.List)
+			if !ok || st.Idx >= lst.Size() {
+				return nil
+			}
+			n = lst.Items()[st.Idx]
+		} else {
+			c, ok := n.(dom.Container)
+			if !ok {
+				return nil
+			}
+			n = c.Children()[st.Key]
+		}
+	}
+	return n
+}
+
+// writesIntoShared: the write would modify a container / list object that was handed to the overlay more than once
+// (it sits at several positions; the value model has one value per position).  Such a step is outside the domain:
+// "Put stores the node it is given" — what later writes through one of its positions do to the others is aliasing
+// the property does not speak about.
+func (w *c06World) writesIntoShared(op c06Op) bool {
+	// the object this very write hands over again counts as shared already: writing it below one of its own
+	// positions would modify it (and make the document cyclic)
+	extra := map[uintptr]bool{}
+	if n := w.reused(op); n != nil {
+		var mut []dom.Node
+		mutableNodes(n, map[uintptr]bool{}, &mut)
+		for _, m := range mut {
+			extra[nodeID(m)] = true
+		}
+	}
+	if len(w.shared) == 0 && len(extra) == 0 {
+		return false
+	}
+	exists := false
+	for _, n := range w.ov.LayerNames() {
+		exists = exists || n == op.L
+	}
+	if !exists {
+		return false
+	}
+	through := func(path string, inclusive bool) bool {
+		steps := c06ParsePath(path)
+		last := len(steps) - 1
+		if inclusive {
+			last = len(steps)
+		}
+		for k := 1; k <= last; k++ {
+			if n := w.liveNode(op.L, steps[:k]); n != nil && !n.IsLeaf() && (w.shared[nodeID(n)] || extra[nodeID(n)]) {
+				return true
+			}
+		}
+		return false
+	}
+	switch op.Op {
+	case "put":
+		if wireKind(op.V) == "cont" {
+			var leaves []string
+			c06LeafPaths(op.V, "", &leaves)
+			for _, k := range leaves {
+				if through(c06ToPath(op.Path, k), false) {
+					return true
+				}
+			}
+			return false
+		}
+		return through(op.Path, false)
+	case "populate":
+		return op.Path != "" && through(op.Path, true)
+	}
+	return false
 }
 
 // inDomain runs the domain predicate against the live overlay. The overlay has no accessor
 // for a layer's own builder and Layers() hands out clones (which do not preserve the identity
 // of the nilLeaf padding singleton), so the layer's root is presented by c06LayerView.
 func (w *c06World) inDomain(op c06Op) bool {
+	op = w.resolve(op)
+	if w.writesIntoShared(op) {
+		return false
+	}
 	exists := false
 	for _, n := range w.ov.LayerNames() {
 		if n == op.L {
@@ -251,9 +367,27 @@ func (w *c06World) ensureName(l string) {
 
 // apply executes a write on the overlay and on the per-layer shadow document.
 func (w *c06World) apply(op c06Op) {
+	op = w.resolve(op)
+	node := w.reused(op)
+	if node != nil {
+		// from now on the object sits at (at least) two positions
+		var mut []dom.Node
+		mutableNodes(node, map[uintptr]bool{}, &mut)
+		for i, m := range mut {
+			if op.Op == "add" && i == 0 {
+				continue // Add stores the members, not the container itself
+			}
+			w.shared[nodeID(m)] = true
+		}
+	} else if op.Op == "put" || op.Op == "add" {
+		node = wireNode(op.V)
+	}
+	if op.ID != "" && node != nil {
+		w.made[op.ID] = node
+	}
 	switch op.Op {
 	case "put":
-		w.ov.Put(op.L, op.Path, wireNode(op.V))
+		w.ov.Put(op.L, op.Path, node)
 		if wireKind(op.V) == "cont" {
 			var leaves []string
 			c06LeafPaths(op.V, "", &leaves)
@@ -267,7 +401,7 @@ func (w *c06World) apply(op c06Op) {
 			w.shadow[op.L].AddValueAt(op.Path, wireNode(op.V))
 		}
 	case "add":
-		w.ov.Add(op.L, wireContainer(op.V))
+		w.ov.Add(op.L, node.(dom.Container))
 		w.ensureName(op.L)
 		fresh := wireContainer(op.V)
 		for _, k := range sortedKeys(fresh.Children()) {
@@ -445,6 +579,10 @@ func c06Eval(c *Ctx, kind string, raw []byte) {
 				c.Dist("skipped-out-of-domain:" + op.Op)
 				continue
 			}
+			if w.reused(op) != nil {
+				c.Dist("write:hands-over-an-earlier-write's-node-object:" + wireKind(w.resolve(op).V))
+			}
+			op = w.resolve(op)
 			_, before := w.state()
 			var names []string
 			var after map[string]any
@@ -474,6 +612,9 @@ func c06Eval(c *Ctx, kind string, raw []byte) {
 				sh := nodeWire(w.shadow[n])
 				c.Direct("layer-sees-only-its-own-writes", canon(sh) == canon(after[n]),
 					map[string]any{"layer": n, "overlay": after[n], "standalone": sh, "op": op})
+			}
+			if !c06Sweep(c, w, op, writes) {
+				return
 			}
 			sent = append(sent, op)
 			obs = append(obs, map[string]any{"out": "ok", "state": map[string]any{"names": names, "layers": after}})
@@ -649,6 +790,9 @@ func c06Eval(c *Ctx, kind string, raw []byte) {
 			var serErr bool
 			out, txt := guard(func() {
 				m := w.ov.Merged(c04Opts(op.Opt)...)
+				if !c.Direct("merged-view-is-a-finite-tree", dhAcyclic(m), map[string]any{"op": op}) {
+					panic("harness: cyclic document, not observed any further")
+				}
 				mw, mmap = nodeWire(m), plainWire(m.AsMap())
 				acc := dom.Builder().Container()
 				ls := w.ov.Layers()
@@ -657,10 +801,30 @@ func c06Eval(c *Ctx, kind string, raw []byte) {
 					layerMaps = append(layerMaps, plainWire(ls[n].AsMap()))
 				}
 				fold = nodeWire(acc)
+				// repeated use: a second and third merged view (other strategy, same strategy) leave the first one what it was
+				other := "append"
+				if op.Opt == "append" {
+					other = "meld"
+				}
+				_ = w.ov.Merged(c04Opts(other)...)
+				m3 := w.ov.Merged(c04Opts(op.Opt)...)
+				c.Direct("merged-view-unchanged-by-later-Merged-calls", canon(nodeWire(m)) == canon(mw) && canon(nodeWire(m3)) == canon(mw),
+					map[string]any{"op": op, "first then": mw, "first now": nodeWire(m), "third": nodeWire(m3)})
 				if op.Opt != "append" {
-					for _, enc := range []dom.EncoderFunc{dom.DefaultYamlEncoder, dom.DefaultJsonEncoder} {
-						var b1, b2 bytes.Buffer
+					for ei, enc := range []dom.EncoderFunc{dom.DefaultYamlEncoder, dom.DefaultJsonEncoder} {
+						var b0, b1, b2 bytes.Buffer
+						// ... preceded by the same call into a writer that fails part-way (after 0, 1, half of the bytes):
+						// the ordinary call that follows writes what it wrote before
+						e0 := w.ov.Serialize(&b0, dom.DefaultNodeEncoderFn, enc)
+						for _, n := range []int{0, 1, b0.Len() / 2, b0.Len() - 1} {
+							if n >= 0 && n < b0.Len() {
+								fw := &failAfterWriter{n: n}
+								ef := w.ov.Serialize(fw, dom.DefaultNodeEncoderFn, enc)
+								c.Direct("serialize-write-failure-surfaces", !fw.hit || ef != nil, map[string]any{"fail_after_bytes": n, "of": b0.Len(), "encoder": ei})
+							}
+						}
 						e1 := w.ov.Serialize(&b1, dom.DefaultNodeEncoderFn, enc)
+						c.Direct("serialize-byte-identical-after-a-failed-write", e0 == nil && bytes.Equal(b0.Bytes(), b1.Bytes()), map[string]any{"before": b0.String(), "after": b1.String()})
 						e2 := w.ov.Merged().Serialize(&b2, dom.DefaultNodeEncoderFn, enc)
 						if e1 != nil || e2 != nil {
 							serErr = true
@@ -857,7 +1021,26 @@ func c06GenHist(r *rand.Rand, g *DocGen, maxWrites int) c06Hist {
 		}
 		return op, true
 	}
+	nextID := 0
+	var reusable []c06Op // executed put / add writes: their node objects can be handed over again
+	newID := func() string {
+		nextID++
+		return fmt.Sprintf("n%d", nextID)
+	}
 	genWrite := func() c06Op {
+		if len(reusable) > 0 && r.Intn(6) == 0 {
+			// the very node object of an earlier write once more: into another layer at the same path (mostly), or
+			// at another path
+			src := pick(r, reusable)
+			for try := 0; try < 4 && wireKind(src.V) == "leaf"; try++ {
+				src = pick(r, reusable)
+			}
+			op := c06Op{Op: src.Op, L: c06Layers[r.Intn(nLayers)], Path: src.Path, V: src.V, Reuse: src.ID, ID: newID()}
+			if op.Op == "put" && r.Intn(4) == 0 {
+				op.Path = c06GenPath(r, 2)
+			}
+			return op
+		}
 		if r.Intn(5) == 0 {
 			if op, ok := aimed(); ok {
 				return op
@@ -970,6 +1153,12 @@ func c06GenHist(r *rand.Rand, g *DocGen, maxWrites int) c06Hist {
 			if op.Op == "put" {
 				known = append(known, op.Path)
 			}
+			if op.Op == "put" || op.Op == "add" {
+				if op.ID == "" {
+					op.ID = newID()
+				}
+				reusable = append(reusable, w.resolve(op))
+			}
 			if ls := w.ov.Layers()[op.L]; ls != nil && r.Intn(3) == 0 {
 				fl := ls.Flatten()
 				ks := sortedKeys(fl)
@@ -979,10 +1168,106 @@ func c06GenHist(r *rand.Rand, g *DocGen, maxWrites int) c06Hist {
 			}
 		}
 		ops = append(ops, op)
+		if op.Reuse != "" {
+			ops = append(ops, c06Op{Op: "merged", Opt: "append"}, c06Op{Op: "merged", Opt: "meld"})
+		}
 		for k, nr := 0, r.Intn(3); k < nr; k++ {
 			ops = append(ops, genRead())
 		}
 	}
 	ops = append(ops, c06Op{Op: "names"}, c06Op{Op: "walk"}, c06Op{Op: "merged", Opt: "meld"})
 	return c06Hist{Ops: ops}
+}
+
+// c06Sweep reads, after a write, everything the layers hold back through the LIVE overlay (the per-write comparison
+// above goes through Layers(), i.e. clones): Lookup of every flattened path of every layer, LookupAny of it against
+// the first layer that has the path, Search(all) and Walk against the flattened views, Merged (strategies
+// alternating) against the reference merge folded over the layers.  Expectations come from the per-layer
+// standalone documents, which received the same writes one by one.
+func c06Sweep(c *Ctx, w *c06World, op c06Op, nth int) bool {
+	ok := true
+	out, txt := guard(func() {
+		type lp struct{ l, p string }
+		want := map[lp]string{}
+		first := map[string]string{} // path -> first layer (in order) whose Lookup finds something there
+		var ref W = map[string]any{"m": map[string]any{}}
+		app := nth%2 == 1
+		for _, n := range w.names {
+			sh := w.shadow[n]
+			for p, lf := range sh.Flatten() {
+				want[lp{n, p}] = canon(scalarWire(lf.Value()))
+			}
+			ref = c04RefDoc(ref, nodeWire(sh), app)
+		}
+		paths := map[string]bool{}
+		for k := range want {
+			paths[k.p] = true
+		}
+		for _, p := range sortedKeys(paths) {
+			for _, n := range w.names {
+				if w.shadow[n].Lookup(p) != nil {
+					first[p] = n
+					break
+				}
+			}
+		}
+		wantKeys := make([]lp, 0, len(want))
+		for k := range want {
+			wantKeys = append(wantKeys, k)
+		}
+		sort.Slice(wantKeys, func(i, j int) bool {
+			return wantKeys[i].l < wantKeys[j].l || (wantKeys[i].l == wantKeys[j].l && wantKeys[i].p < wantKeys[j].p)
+		})
+		for _, k := range wantKeys {
+			v := want[k]
+			n := w.ov.Lookup(k.l, k.p)
+			if n == nil || !n.IsLeaf() || canon(scalarWire(n.(dom.Leaf).Value())) != v {
+				ok = c.Direct("lookup-sees-only-that-layer(every leaf after every write)", false,
+					map[string]any{"after": op, "layer": k.l, "path": k.p, "impl": nodeWire(n), "expected": json.RawMessage(v)}) && ok
+				return
+			}
+		}
+		for _, p := range sortedKeys(paths) {
+			got := w.ov.LookupAny(p)
+			exp := w.ov.Lookup(first[p], p)
+			if got != exp || got == nil {
+				ok = c.Direct("lookupAny-first-layer-with-hit(every leaf after every write)", false,
+					map[string]any{"after": op, "path": p, "impl": nodeWire(got), "first layer": first[p], "expected": nodeWire(exp)}) && ok
+				return
+			}
+		}
+		found := map[lp]int{}
+		for _, co := range w.ov.Search(func(interface{}) bool { return true }) {
+			found[lp{co.Layer(), co.Path()}]++
+		}
+		good := len(found) == len(want)
+		for k, n := range found {
+			if _, has := want[k]; !has || n != 1 {
+				good = false
+			}
+		}
+		ok = c.Direct("search-exactly-matching-positions(all, after every write)", good, map[string]any{"after": op, "found": len(found), "expected": len(want)}) && ok
+		seen := map[lp]int{}
+		good = true
+		w.ov.Walk(func(layer, path string, parent, node dom.Node) bool {
+			k := lp{layer, path}
+			seen[k]++
+			if v, has := want[k]; !has || !node.IsLeaf() || canon(scalarWire(node.(dom.Leaf).Value())) != v {
+				good = false
+			}
+			return true
+		})
+		ok = c.Direct("walk-visits-exactly-the-flattened-triples(after every write)", good && len(seen) == len(want), map[string]any{"after": op, "visited": len(seen), "expected": len(want)}) && ok
+		opt := "meld"
+		if app {
+			opt = "append"
+		}
+		m := w.ov.Merged(c04Opts(opt)...)
+		if !c.Direct("merged-view-is-a-finite-tree", dhAcyclic(m), map[string]any{"after": op}) {
+			panic("harness: cyclic document, not observed any further")
+		}
+		ok = c.Direct("merged-AsMap-eq-reference-fold-of-layer-AsMaps(after every write)", canon(plainWire(m.AsMap())) == canon(ref) && canon(nodeWire(m)) == canon(ref),
+			map[string]any{"after": op, "opt": opt, "merged": nodeWire(m), "expected": ref}) && ok
+	})
+	return c.Direct("no-panic(reads after a write)", out == "ok", map[string]any{"after": op, "panic": txt}) && ok
 }
